@@ -15,6 +15,7 @@ MODULES = {
     "C02": "props_trace",
     "C03": "props_trace",
     "C04": "props_c04",
+    "C05": "props_c05",
     "C06": "props_frame",
     "C07": "props_trace",
     "C15": "props_frame",
